@@ -309,6 +309,15 @@ async fn run_scenario(sc: &Value, seed: u64) -> Vec<Value> {
         col.drain();
         verif::emit("app", "H", "quiet_end", json!({}));
     }
+    // optional: close individual channels first (stream reset), then the association
+    for c in sc["close_chans"].as_array().cloned().unwrap_or_default() {
+        let side = c["side"].as_str().unwrap_or("A").chars().next().unwrap();
+        let sid = c["sid"].as_u64().unwrap_or(0) as u16;
+        verif::emit("app", inst(side), "close_call", json!({"sid": sid}));
+        let r = pair.ep(side).sctp.close_data_channel(sid).await;
+        verif::emit("app", inst(side), "close_done", json!({"sid": sid, "ok": r.is_ok()}));
+        let _ = settle(&mut col, settle_ms.min(60), 500, false).await;
+    }
     // association teardown: every open channel must report Close (at most once)
     if sc["close"].as_bool().unwrap_or(true) {
         verif::emit("app", "H", "closing", json!({}));
